@@ -376,11 +376,11 @@ PROPS["C10"] = dict(
 
 PROPS["C13"] = dict(
     title="Filestore requests act as CFDP defines, once, in order, reported truthfully",
-    module="Cfdp.Props.C13",
+    module="Cfdp.Props.C13r",
     namespace="Cfdp.Fs",
     theorems=["C13_failed_changes_nothing", "C13_create_file", "C13_delete_file", "C13_append_file", "C13_replace_file",
               "C13_preconditions", "C13_run_requests", "Cfdp.Recv.C13_recv_runs_requests",
-              "Cfdp.Recv.C13_finished_pdu_responses", "Cfdp.Send.C13_send_user_responses"],
+              "Cfdp.Recv.C13_finished_pdu_responses", "Cfdp.Send.C13_send_user_responses", "C13_rename_file", "C13_remove_directory", "C13_create_directory"],
     engines=["fs", "recv", "send"],
     design="§6 C13",
     technique="Lean 4 proofs over the filestore model (finite map of root-relative paths) and the request loop of finalize_receive + differential correspondence on the real NativeFileStore",
@@ -402,7 +402,7 @@ PROPS["C13"] = dict(
           "response_names, no_panic, and (C12) fs_contained: nothing next to the root changes. recv/send engines: transactions carrying 0-3 requests (append = non-idempotent) "
           "under the fault placements of C04. Non-trivial = the request changed the listing or returned a non-zero status / a PDU was emitted."),
     assumptions=["names are mapped to root-relative paths by get_native_path as characterised in C12"],
-    unproved=["rename and remove-directory: the full post-state (moved subtree / removed subtree) is only checked against the model by the fs engine, not stated as a theorem"],
+    unproved=["rename of a directory (moving a subtree) is only checked against the model by the fs engine; C13_rename_file covers plain files, which is what a Rename File request is accepted for"],
 )
 
 PROPS["C01"] = dict(
